@@ -206,18 +206,24 @@ def stmts(ctx, body, k):
         if isinstance(tgt, ast.Name) and isinstance(val, ast.Call) and dotted(val.func) == 'bytearray':
             # local buffer: msg = bytearray([a, b, ...])
             if len(val.args) == 1 and isinstance(val.args[0], ast.List):
-                ctx.locals[tgt.id] = '[' + '; '.join(expr(ctx, e_) for e_ in val.args[0].elts) + ']'
+                v = '[' + '; '.join(expr(ctx, e_) for e_ in val.args[0].elts) + ']'
             elif not val.args:
-                ctx.locals[tgt.id] = '[]'
+                v = '[]'
             else:
                 err(st, 'bytearray(...) form not supported')
+            ctx.n_let = getattr(ctx, 'n_let', 0) + 1
+            name = f'v__{tgt.id}_{ctx.n_let}'
+            ctx.locals[tgt.id] = name
             ctx.locals[tgt.id + '#kind'] = 'bytes'
-            return stmts(ctx, rest, k)
+            return f'(let {name} := {v} in\n   {stmts(ctx, rest, k)})'
         if isinstance(tgt, ast.Name) and ctx.locals.get(tgt.id + '#kind') == 'bytes' and isinstance(st, ast.AugAssign) and isinstance(st.op, ast.Add):
             dv = dotted(st.value)
             if dv and dv.startswith('self.') and ctx.attrs.get(dv[5:], (0, 0))[1] == 'bytes':
-                ctx.locals[tgt.id] = f'({ctx.locals[tgt.id]} ++ {ctx.attrs[dv[5:]][0]} s)'
-                return stmts(ctx, rest, k)
+                v = f'({ctx.locals[tgt.id]} ++ {ctx.attrs[dv[5:]][0]} s)'
+                ctx.n_let = getattr(ctx, 'n_let', 0) + 1
+                name = f'v__{tgt.id}_{ctx.n_let}'
+                ctx.locals[tgt.id] = name
+                return f'(let {name} := {v} in\n   {stmts(ctx, rest, k)})'
             err(st, 'buffer += of an unsupported value')
         if isinstance(tgt, ast.Name):
             # local: cid = UbxCID(a, b)  /  packet = (cid, self.msg_data)  /  crc_error_message = (self.crc_error_cid, None) / val = ...
@@ -267,8 +273,11 @@ def stmts(ctx, body, k):
         f = dotted(c.func)
         if f and '.' in f and f.split('.')[0] in ctx.locals and ctx.locals.get(f.split('.')[0] + '#kind') == 'bytes' and f.split('.')[1] == 'append' and len(c.args) == 1:
             nm = f.split('.')[0]
-            ctx.locals[nm] = f'({ctx.locals[nm]} ++ [{expr(ctx, c.args[0])}])'
-            return stmts(ctx, rest, k)
+            v = f'({ctx.locals[nm]} ++ [{expr(ctx, c.args[0])}])'
+            ctx.n_let = getattr(ctx, 'n_let', 0) + 1
+            name = f'v__{nm}_{ctx.n_let}'
+            ctx.locals[nm] = name
+            return f'(let {name} := {v} in\n   {stmts(ctx, rest, k)})'
         if f and f.startswith('self.'):
             parts = f.split('.')
             if len(parts) == 2 and parts[1] in ctx.methods:
